@@ -2,7 +2,11 @@
 """seed_eval.py <seed-name> <worktree> <property> [--props C06,C09,...] [--skip-confirm]
 Confirms a seeded property-breaking change (tests pass, demo fails with / passes without it), stores it under
 /verif/seeded/<seed-name>/ and runs the registered checks against a scratch copy of /repo with the patch applied."""
-import sys, os, subprocess, shutil, json, time
+import sys, os, subprocess, shutil, hashlib, glob, json, time
+def cleanup_build(d):
+    h = hashlib.sha1(os.path.abspath(d).encode()).hexdigest()[:8]
+    for p in glob.glob('/verif/build/*_' + h):
+        shutil.rmtree(p, ignore_errors=True)
 VERIF = os.path.dirname(os.path.dirname(os.path.abspath(__file__)))
 name, wt, prop = sys.argv[1], sys.argv[2], sys.argv[3]
 props = [prop]
@@ -49,6 +53,7 @@ for p in props:
     checks[p] = {'exit': r.returncode, 'wall_s': round(time.time() - t0, 1), 'lines': lines[:8]}
     ran.append('bin/check %s quick --repo <scratch copy with patch> -> exit %d' % (p, r.returncode))
 shutil.rmtree(mw, ignore_errors=True)
+cleanup_build(mw)
 res['checks'] = checks
 meta = json.load(open(os.path.join(out, 'meta.json')))
 meta['verified_by_framework_author'] = res
